@@ -136,7 +136,15 @@ func TestGolden(t *testing.T) {
 		sys := &Sys{Dir: tmp, Path: filepath.Join(tmp, "db", "state.db"), KEK: kek, D: d}
 		os.WriteFile(sys.Path, golden, 0o600)
 		nfiles++
-		if err := sys.open(); err != nil {
+		oerr := func() (err error) {
+			defer func() {
+				if r := recover(); r != nil {
+					err = fmt.Errorf("db.Open panicked: %v", r)
+				}
+			}()
+			return sys.open()
+		}()
+		if err := oerr; err != nil {
 			res.Violate("golden-open "+name, fmt.Sprintf("schema-v1 file golden/%s/state.db written by the pinned build does not open: %v", name, err),
 				map[string]any{"kind": "golden", "file": name})
 			continue
